@@ -363,3 +363,15 @@ _run_c19b = run
 def run(ctx):  # noqa: F811
     _run_c19b(ctx)
     r19_5(ctx, ctx.model)
+
+
+_run_c19z = run
+
+
+def run(ctx):  # noqa: F811
+    _run_c19z(ctx)
+    from .alias import alias
+    from . import c04, c18
+    # the KL value keeps the prior energy of every constant key (shared with C04); mirrored samples are exact negatives (shared with C18)
+    alias(ctx, c04.r04_4, {"R04.4": "R19.6"}, "shared with C04", ctx.model)
+    alias(ctx, c18._run_c18, {"R18.1": "R19.7"}, "shared with C18")
